@@ -736,7 +736,12 @@ fn main() {
     let all_eol = ["none", "input", "input-output"];
     let all_exec = ["respect", "ignore"];
     // (configs, sequence length, variants)
-    let mut plans: Vec<(Vec<Cfg>, usize, Vec<bool>)> = vec![];
+    // (configs, max sequence length, variants, tree subset)
+    let mut plans: Vec<(Vec<Cfg>, usize, Vec<bool>, Vec<usize>)> = vec![];
+    let all_trees: Vec<usize> = (0..n).collect();
+    let by_name = |names: &[&str]| -> Vec<usize> {
+        names.iter().map(|nm| alphabet.iter().position(|s| s.name == *nm).unwrap_or_else(|| machinery_failure("unknown tree name"))).collect()
+    };
     let mut configs_k2 = vec![];
     for eol in all_eol {
         for exec in all_exec {
@@ -754,11 +759,12 @@ fn main() {
         }
     }
     if ctx.quick() {
-        plans.push((configs_k2.clone(), 2, vec![true, false]));
-        plans.push((vec![Cfg { eol: "none", exec: "respect", style: "diff" }], 3, vec![true]));
+        plans.push((configs_k2.clone(), 2, vec![true, false], all_trees.clone()));
+        let sub = by_name(&["empty", "a1", "a1-exec", "a-symlink", "d-file", "d-dir", "d-symlink", "conflict-content", "conflict-in-dir", "conflict-file-dir"]);
+        plans.push((vec![Cfg { eol: "none", exec: "respect", style: "diff" }], 3, vec![true], sub));
     } else {
-        plans.push((all_configs.clone(), 3, vec![true, false]));
-        plans.push((vec![Cfg { eol: "input-output", exec: "respect", style: "diff" }], 4, vec![true]));
+        plans.push((all_configs.clone(), 3, vec![true, false], all_trees.clone()));
+        plans.push((vec![Cfg { eol: "input-output", exec: "respect", style: "diff" }], 4, vec![true], all_trees.clone()));
     }
 
     let tally = Tally::default();
@@ -766,12 +772,12 @@ fn main() {
     let states: Mutex<HashSet<String>> = Mutex::new(HashSet::new());
     let mut plan_reports = vec![];
     let mut total_sequences = 0u64;
-    for (configs, k, variants) in &plans {
+    for (configs, k, variants, trees) in &plans {
         let mut count = 0u64;
         for cfg in configs {
             // fresh checkouts of every tree (also the length-1 sequences)
             let fresh_results: Vec<(usize, Result<Outcome, Failure>)> =
-                (0..n).into_par_iter().map(|i| (i, run_sequence(&alphabet, cfg, &[i], true, None, Some(&tally)))).collect();
+                trees.par_iter().map(|&i| (i, run_sequence(&alphabet, cfg, &[i], true, None, Some(&tally)))).collect();
             let mut fresh = BTreeMap::new();
             for (i, r) in fresh_results {
                 count += 1;
@@ -784,8 +790,9 @@ fn main() {
                 }
             }
             // two fresh checkouts of the same tree agree (determinism gate for clause 3)
-            if let Some(d) = fresh.get(&7) {
-                match run_sequence(&alphabet, cfg, &[7], true, None, None) {
+            let gate_tree = trees[trees.len() / 2];
+            if let Some(d) = fresh.get(&gate_tree) {
+                match run_sequence(&alphabet, cfg, &[gate_tree], true, None, None) {
                     Ok(o) if o.final_disk == *d => {}
                     Ok(_) => machinery_failure("two fresh checkouts of the same tree gave different disks"),
                     Err(_) => machinery_failure("a fresh checkout that passed now fails"),
@@ -793,8 +800,8 @@ fn main() {
             }
             for len in 2..=*k {
                 let mut seqs: Vec<Vec<usize>> = vec![];
-                odometer(&vec![n; len], |t| {
-                    seqs.push(t.to_vec());
+                odometer(&vec![trees.len(); len], |t| {
+                    seqs.push(t.iter().map(|j| trees[*j]).collect());
                     true
                 });
                 for &snapshot_each in variants {
@@ -828,6 +835,7 @@ fn main() {
         plan_reports.push(json!({
             "configs": configs.iter().map(|c| c.json()).collect::<Vec<_>>(),
             "max_sequence_length": k,
+            "trees": trees.iter().map(|i| alphabet[*i].name).collect::<Vec<_>>(),
             "variants_snapshots_after_every_checkout": variants,
             "sequences": count,
         }));
